@@ -147,13 +147,13 @@ type Result struct {
 }
 
 type Cmd struct {
-	Dir     string
-	Env     []string // extra KEY=VAL
-	Timeout time.Duration
-	Stdin   string
+	Dir           string
+	Env           []string // extra KEY=VAL
+	Timeout       time.Duration
+	Stdin         string
 	DumpOnTimeout bool
-	Name    string
-	Args    []string
+	Name          string
+	Args          []string
 }
 
 func (c Cmd) Run() Result {
